@@ -646,7 +646,53 @@ func mutate(t *rapid.T, f []byte) []byte {
 	}
 }
 
+// genManyPartials: far more messages under reassembly at once on one face than a handful -- the
+// first fragments of 30..300 different messages (ascending, descending or scattered sequence
+// numbers), then a fragment older than everything held, then second fragments that complete
+// some of them. (Seeded C04-r6-2: a bound of 64 partial messages whose eviction removed the
+// entry just created, so that the store was indexed through a nil slice.)
+func genManyPartials(t *rapid.T) Case {
+	c := Case{Threads: rapid.IntRange(1, 2).Draw(t, "threads")}
+	p := genPacket(t, 0)
+	if len(p) < 4 {
+		p = append(p, 0, 0, 0, 0)
+	}
+	half := len(p) / 2
+	n := rapid.SampledFrom([]int{30, 63, 64, 65, 66, 100, 130, 300}).Draw(t, "nPartial")
+	start := rapid.SampledFrom([]uint64{100000, 1 << 40, 1<<63 + 7}).Draw(t, "seq0")
+	order := rapid.IntRange(0, 2).Draw(t, "seqOrder")
+	bases := make([]uint64, n)
+	for i := range bases {
+		switch order {
+		case 0:
+			bases[i] = start + uint64(3*i)
+		case 1:
+			bases[i] = start - uint64(3*i)
+		default:
+			bases[i] = start + uint64(3*((i*7919)%n))
+		}
+	}
+	first := func(base uint64) []byte {
+		return lpwire.LP{Seq: u64p(base), FragIndex: u64p(0), FragCount: u64p(2), Fragment: p[:half]}.Encode()
+	}
+	second := func(base uint64) []byte {
+		return lpwire.LP{Seq: u64p(base + 1), FragIndex: u64p(1), FragCount: u64p(2), Fragment: p[half:]}.Encode()
+	}
+	for _, b := range bases {
+		c.Frames = append(c.Frames, first(b))
+	}
+	c.Frames = append(c.Frames, first(start-uint64(3*n)-50)) // older than everything held
+	c.Frames = append(c.Frames, second(start-uint64(3*n)-50))
+	for k := rapid.IntRange(1, 6).Draw(t, "nComplete"); k > 0; k-- {
+		c.Frames = append(c.Frames, second(bases[rapid.IntRange(0, n-1).Draw(t, "complete")]))
+	}
+	return c
+}
+
 func genCase(t *rapid.T) Case {
+	if rapid.IntRange(0, 14).Draw(t, "manyPartials") == 0 {
+		return genManyPartials(t)
+	}
 	var c Case
 	c.Threads = rapid.IntRange(1, 4).Draw(t, "threads")
 	c.Local = rapid.IntRange(0, 3).Draw(t, "local") == 0
@@ -809,7 +855,7 @@ func genCase(t *rapid.T) Case {
 	return c
 }
 
-const ruleFrames = "1-24 frames on one face fed to handleIncomingFrame with 1-4 recording forwarding threads: fragments of 1-3 valid packets referring to live partial messages (hostile FragCount 0/huge/changing, FragIndex >= count, missing fields, duplicates, wrapping Sequence), whole LpPackets with PIT tokens whose thread id is <, = or > the number of threads and extra/unknown header fields, bare packets, IDLE, nested LpPackets, non-packet fragments, structure-aware mutations (hostile length at any depth, truncation, byte flip, trailing bytes, type swap), stream-level headers with hostile lengths, garbage. Oracle per frame: no panic, allocation <= 64*len+64KiB, a frame the packet reader rejects delivers nothing and leaves partial-message store / face table / thread table unchanged, the store grows by at most the frame. Non-trivial: >=1 hostile element (harness parser) in a case in which the link service also stored or delivered something"
+const ruleFrames = "1-24 frames (one case in fifteen: the first fragments of 30-300 messages held at once, then an older one) on one face fed to handleIncomingFrame with 1-4 recording forwarding threads: fragments of 1-3 valid packets referring to live partial messages (hostile FragCount 0/huge/changing, FragIndex >= count, missing fields, duplicates, wrapping Sequence), whole LpPackets with PIT tokens whose thread id is <, = or > the number of threads and extra/unknown header fields, bare packets, IDLE, nested LpPackets, non-packet fragments, structure-aware mutations (hostile length at any depth, truncation, byte flip, trailing bytes, type swap), stream-level headers with hostile lengths, garbage. Oracle per frame: no panic, allocation <= 64*len+64KiB, a frame the packet reader rejects delivers nothing and leaves partial-message store / face table / thread table unchanged, the store grows by at most the frame. Non-trivial: >=1 hostile element (harness parser) in a case in which the link service also stored or delivered something"
 
 const ruleStream = "the same frame sequences concatenated into one byte stream and fed through readTlvStream (generated read sizes 1..9000 / as offered) into handleIncomingFrame. Oracle: no panic, returns within the watchdog, never spins on a full buffer, allocation <= receive buffer + 64*len(stream) + 64KiB per frame handed up, bytes handed up <= stream length. Non-trivial: >=1 hostile element and >=1 frame handed to the link service"
 
